@@ -299,6 +299,20 @@ def extra_cases(ctx, n):
         exp = ["".join(l + "\n" for l in b1), "".join(l + "\n" for l in b2)]
         if found != exp:
             ctx.fail("two-fences:differs", "two fenced blocks are not reproduced verbatim: expected %r, got %r (document %r)" % (exp, found, doc), {"kind": "two-fences", "container": "top", "doc": doc, "expected": exp})
+    # a fenced block (indented by 0-3 blanks) after an indented code block and one or two blank lines: two blocks, both verbatim
+    for _ in range(n):
+        c = ctx.rng.choice("`~"); k = ctx.rng.randint(3, 4); ind = " " * ctx.rng.randint(0, 3)
+        b2 = [l for l in body_lines(ctx.rng, c, k, allow_blank=True, allow_lead_tab=False) if not is_closer(l, c, k)] or ["two"]
+        first = ctx.rng.choice(["first", "a b", "x = 1"])
+        doc = ctx.rng.choice(["", "para\n\n"]) + "    " + first + "\n" + "\n" * ctx.rng.randint(1, 2) + ind + c * k + "\n" + "".join(((ind + l) if l else "") + "\n" for l in b2) + ind + c * k + "\n"
+        cnt += 1
+        try:
+            found = [t["raw"] for t in codes(ast0(doc))]
+        except Exception as e:
+            ctx.fail("exception", "conversion raised %r" % e, {"kind": "after-indented", "container": "top", "doc": doc}); continue
+        exp = [first, "".join(l + "\n" for l in b2)]
+        if found != exp:
+            ctx.fail("after-indented-code:differs", "a fenced block after an indented code block is not reproduced verbatim: expected %r, got %r (document %r)" % (exp, found, doc), {"kind": "after-indented", "container": "top", "doc": doc, "expected": exp})
     tmp = tempfile.mkdtemp(prefix="verif-c11-")
     try:
         for style in ("rst", "fenced"):
